@@ -147,7 +147,9 @@ class Ext:
       raise_   Gallina text of "an exception left the function" for the declared return type
       binop    {(ast operator name, left kind, right kind): (template with two %s, result Ty)}     [srcloop]
       expr     f(fn, node, env) -> (g, Ty) | None     expression nodes the core does not know (consulted last)   [srcloop]
-      is_none  f(fn, path, g, t, env, k_none, k_some) -> text | None     [srcgate] `p is None` / `p is not None` tests"""
+      is_none  f(fn, path, g, t, env, k_none, k_some) -> text | None     [srcgate] `p is None` / `p is not None` tests
+      raise_stmt [srclabels] f(fn, stmt, env)   accepts (returns) or rejects (Unsupported) a `raise` statement of a pure
+               function; the function's value is then raise_"""
 
     def __init__(self, **kw):
         self.calls, self.methods, self.attrs, self.compare, self.truthy = {}, {}, {}, {}, {}
@@ -569,6 +571,13 @@ def tr_block(fn, stmts, env, k):
         return wrap_pending(fn, pend, "let %s := %s in\n%s" % (v, g, tr_block(fn, rest, e2, k)))
     if isinstance(s, ast.Pass):
         return tr_block(fn, rest, env, k)
+    # [srclabels] `raise <expr>` in a pure function whose value says whether an exception left it (Ext.raise_): the unit
+    # decides whether it can read the raised expression (Ext.raise_stmt(fn, stmt, env): returns, or raises Unsupported)
+    if isinstance(s, ast.Raise) and getattr(fn.ext, "raise_stmt", None) is not None:
+        if rest:
+            _bad("statements after raise", rest[0])
+        fn.ext.raise_stmt(fn, s, env)
+        return wrap_pending(fn, fn.take_pending(), fn.ext.raise_)
     _bad("statement %s" % type(s).__name__, s)
 
 
